@@ -54,12 +54,13 @@ def bell_pauli_bits(b):
     return (1 if b in (1, 2) else 0), (1 if b in (2, 3) else 0)
 
 
-def mk_conn(hw, n_other, outcomes=()):
+def mk_conn(hw, n_other, outcomes=(), number=1):
     DebugConnection.node_ids = {"app": 0, "Bob": 1}
     sock = EPRSocket("Bob")
     ex = NetExecutor("ctrl", outcomes=list(outcomes))
-    cfg = NVHardwareConfig(5) if hw == "nv" else GenericHardwareConfig(5)
-    conn = PipeConnection("app", executor=ex, epr_sockets=[sock], hardware_config=cfg, max_qubits=5)
+    size = max(5, n_other + number + 1)          # the scenario must fit the qubit budget (one spare slot for NV relocation)
+    cfg = NVHardwareConfig(size) if hw == "nv" else GenericHardwareConfig(size)
+    conn = PipeConnection("app", executor=ex, epr_sockets=[sock], hardware_config=cfg, max_qubits=size)
     others = []
     for _ in range(n_other):
         q = Qubit(conn)
@@ -83,7 +84,7 @@ def body_keep(spec, falsify=False):
     variant, hw, n_other, number, expect = spec["variant"], spec["hw"], spec["n_other"], spec["number"], spec.get("expect", True)
 
     def body(inp):
-        conn, sock, ex, others = mk_conn(hw, n_other, [inp.bit(f"out{i}") for i in range(number)])
+        conn, sock, ex, others = mk_conn(hw, n_other, [inp.bit(f"out{i}") for i in range(number)], number=number)
         wire = spec.get("wire", "netqasm")
         if wire == "qlink1":
             # the link layer answers in qlink-interface 1.0 form and names the Bell state with THAT interface's enum; what counts is the
